@@ -14,7 +14,7 @@ META = {
             'Lean printer (exact text), parse_X(print_X(obj)) compared field by field with obj and with the Lean parser; regular '
             'expressions: both concrete syntaxes re-parsed (tree equality for the parenthesised syntax; same language on words <=4 and same '
             'printed form for the simple syntax); simple-format grammars re-parsed to an equal grammar; non-trivial = object with >=2 '
-            'states and >=1 transition / expression with a nested operator; distinct by content; also DFAs / NFAs with set names {..} and pair names (p,q) re-read with the matching state_regex, PDA / TM marker symbols % & ! ~ ^ *',
+            'states and >=1 transition / expression with a nested operator; distinct by content; also DFAs / NFAs with set names {..} and pair names (p,q) re-read with the matching state_regex, PDA / TM marker symbols % & ! ~ ^ *; grammars with 18-30 alternatives for one variable, DFAs with 11-13 numbered states and one with more than 256 transitions',
     'assumptions': ['state names match \\w+ and are not keywords of the same format; ASCII symbols plus ε, □',
                     'the ANTLR-generated regexp parsers are tied by correspondence only (no Lean model)'],
     'trusted_base': ['Lean: Gamba/Model/Parse.lean is the model of parser and printers'],
@@ -67,6 +67,13 @@ def cases(ctx):
             if rng.random() < 0.3:      # a user-declared empty-word symbol
                 G['eps'] = rng.choice(['e', '_', 'z'])
             yield {'kind': 'cfg', 'X': G}
+
+    for i in range(10 * K):       # one variable with 18-30 alternatives: a printed rule much longer than 79 columns
+        yield {'kind': 'cfg', 'X': gen.wide_cfg(rng)}
+    for i in range(1 if not thorough else 4):      # more than 256 transitions
+        yield {'kind': 'dfa', 'X': gen.wide_dfa(rng)}
+    for i in range(10 * K):       # 11-13 numbered states
+        yield {'kind': 'dfa', 'X': gen.numbered_dfa(rng)}
 
 
 BUILD = {'dfa': enc.build_dfa, 'nfa': enc.build_nfa, 'pda': enc.build_pda, 'tm': enc.build_tm}
